@@ -60,10 +60,18 @@ class Gen:
         self.ctx, self.depth, self.inner_max = ctx, depth, inner_max
         self.fail_budget = fail_budget
         self.typed = 0
+        self.scalars = 0
 
     def leaf(self, pos, typed):
         ctx = self.ctx
         if not typed:
+            self.scalars += 1
+            if self.scalars % 4 == 2:
+                v = b"by" + bytes([self.scalars])  # YAML !!binary delivers bytes: plain data, not a list of ints
+                return v, Spec("scalar", value=v)
+            if self.scalars % 4 == 3:
+                v = (self.scalars, "tuple")  # python configs deliver tuples: plain data as well
+                return v, Spec("scalar", value=v)
             v = ctx.num("val_" + pos, "int")
             return v, Spec("scalar", value=v)
         return self.typed_node(pos, children=[], allow_resolution_failure=True)
@@ -119,7 +127,7 @@ class Gen:
                 kids.append(self.leaf(cpos, typed=(ck == 1)))
         if kind == 0:
             return [c for c, s in kids], Spec("list", items=[s for c, s in kids])
-        keys = ["a", "b"][:n]
+        keys = (["a", "b"] if self.typed % 2 else ["__meta__", "b"])[:n]  # a dunder-style name is a keyword like any other
         if kind == 1:
             return {k: c for k, (c, s) in zip(keys, kids)}, Spec("map", items=[(k, s) for k, (c, s) in zip(keys, kids)])
         args = None
